@@ -160,8 +160,8 @@ fn main() {
                 // images that only occur while `create` is in flight: the memory was never acknowledged
                 // and the model does not cover the hinted-decode fall-back on a half-written first TOC
                 let only_create = ev.points.iter().filter(|p| p.image == i).all(|p| p.inflight == "create");
-                if m != r && only_create { sum.branch("create-in-flight-model-exempt"); }
-                if m != r && !only_create {
+                if !model_matches(&m, &r) && only_create { sum.branch("create-in-flight-model-exempt"); }
+                if !model_matches(&m, &r) && !only_create {
                     model_agrees[i] = false;
                     let k = ev.points.iter().find(|p| p.image == i).map(|p| p.k).unwrap_or(0);
                     if verbose { println!("  DISAGREE image {i} (first at k={k}): model `{ans}` impl `{r}` ({})", ev.obs[i].first.err); }
@@ -178,6 +178,15 @@ fn main() {
                 while pos < sp.begin { sim.apply(&rec.ops[pos]); pos += 1; }
                 let c: Vec<String> = canon_step(&rec.ops, sp.begin, sp.end, &sim, FILE_NAME).iter()
                     .map(|t| { let w: Vec<&str> = t.split('.').collect(); if w[0] == "rename" { "rename".to_string() } else if t == "fsync.d" { "fsyncdir".to_string() } else { format!("{}.{}", w[0], w[1]) } }).collect();
+                let mut c = c;
+                if sp.name == "reopen" {
+                    // the clean reopen = staged commit by Drop, then the new handle's `EmbeddedWal::open` and
+                    // `recover_wal` each rewrite the sentinel: trailing sentinel writes beyond the first
+                    if let Some(rn) = c.iter().position(|t| t == "rename") {
+                        let keep = rn + 3;
+                        if c.len() > keep && c[keep..].iter().all(|t| t == "pwrite.t") { c.truncate(keep); }
+                    }
+                }
                 let staged_start = c.iter().position(|t| t == "create.t");
                 let (expect, what) = match (sp.name.as_str(), staged_start) {
                     ("put" | "update" | "delete", None) if c.len() == 3 => (d.ask(if fixed_put(&rec.ops[sp.begin..sp.end]) { "emit putfixed" } else { "emit put" }), "put"),
